@@ -102,8 +102,8 @@ func TestC22(t *testing.T) {
 			tf, bm := c22build(h)
 			return c22canon(tf, bm)
 		},
-		Visit:    check,
-		MaxDepth: 0,
+		Visit:     check,
+		MaxDepth:  0,
 		MaxStates: 2_000_000,
 	})
 	rep.AddStates(int64(res.States), int64(res.Transitions), int64(res.Transitions))
